@@ -116,7 +116,7 @@ pub fn run(rep: &mut Report) {
         let (k, f) = (i / 2, i % 2);
         scripted::<P16E1>(&[(k << 14) | if f == 0 { 0 } else { 0x3fff }, splitmix(i)], 1, l)
     });
-    let stride = tier.pick(64, 1);
+    let stride = tier.pick(8, 1);
     let off = rep.cfg.seed % stride;
     rep.lattice(&format!("P32E2: first word = k << 5 | fill (every {}th of the 2^27 k), second word = s2 << 30, all 4 s2", stride), ((1u64 << 27) / stride) * 4, move |i, l| {
         let (k, s2) = ((i / 4) * stride + off, i % 4);
